@@ -273,13 +273,13 @@ func (r *router) AttachClient(client wamp.Peer, transportDetails wamp.Dict) erro
 
 	sess.Details = sessDetails
 
-	if err := realm.handleSession(sess); err != nil {
+	// handleSession sends WELCOME before it starts the session handler.
+	if err := realm.handleSession(sess, welcome); err != nil {
 		// Any error returned here is a shutdown error.
 		sendAbort(wamp.ErrSystemShutdown, nil)
 		return err
 	}
 
-	client.Send() <- welcome // Blocking OK; this is session goroutine.
 	if r.debug {
 		r.log.Println("Finished attaching session:", sid)
 	}
